@@ -52,7 +52,7 @@ pub fn prop() -> Prop {
          section 6 + apollo's documented choices). Non-trivial: at least one field error at a Non-Null position or \
          inside a list; distinct by operation + variables + schema + world.",
     )
-    .random("execute", check, |t| dev_scale(if t == Tier::Quick { 120_000 } else { 3_000_000 }), |t| if t == Tier::Quick { 900 } else { 1500 })
+    .random("execute", check, |t| dev_scale(if t == Tier::Quick { 300_000 } else { 10_000_000 }), |t| if t == Tier::Quick { 900 } else { 1500 })
     .text(check_text)
     .assumptions(&[
         "errors are compared by path; the list is checked against the set of field errors of an uncancelled reference execution (subset, no duplicates, every error-made null explained) because the specification allows cancelling siblings after a propagating error and fixes no order of `errors`",
@@ -84,7 +84,7 @@ pub enum BuildErr {
 }
 
 /// Reference side of a case: coerced variables, world, both reference runs.
-pub fn build_from(case: Case, world_bytes: &[u8], fixed_world: Option<World>) -> Result<Built, BuildErr> {
+pub fn build_from(case: Case, world_bytes: &[u8], fixed_world: Option<World>, tier: Tier) -> Result<Built, BuildErr> {
     let coerced = match Coercer::new(&case.schema).coerce_variable_values(&case.var_defs, &case.variables) {
         Ok(v) => v,
         Err(Fail::Unspecified(_)) => return Err(BuildErr::Skip("variables-unspecified")),
@@ -103,6 +103,10 @@ pub fn build_from(case: Case, world_bytes: &[u8], fixed_world: Option<World>) ->
         None => {
             let mut c = Choices::new(world_bytes);
             let mut g = WorldGen::new(&mut c, &case.schema);
+            if tier == Tier::Thorough {
+                g.max_positions = 200;
+                g.max_len = 4;
+            }
             let full = rx::execute(&case.schema, &case.op_doc, &op, &coerced, &mut g, false);
             let labels: Vec<&'static str> = g.labels.iter().cloned().collect();
             (g.world, labels, full)
@@ -118,10 +122,18 @@ pub fn build_from(case: Case, world_bytes: &[u8], fixed_world: Option<World>) ->
     Ok(Built { case, world, world_labels, coerced, full, seq })
 }
 
-pub fn build(bytes: &[u8]) -> Result<Built, BuildErr> {
+pub fn opts(tier: Tier) -> exec_ops::Opts {
+    if tier == Tier::Thorough {
+        exec_ops::Opts::default().thorough()
+    } else {
+        exec_ops::Opts::default()
+    }
+}
+
+pub fn build(bytes: &[u8], tier: Tier) -> Result<Built, BuildErr> {
     let (cb, wb) = exec_ops::split_world_bytes(bytes);
-    let case = exec_ops::case(&cb, &exec_ops::Opts::default());
-    build_from(case, &wb, None)
+    let case = exec_ops::case(&cb, &opts(tier));
+    build_from(case, &wb, None, tier)
 }
 
 pub fn render(b: &Built) -> String {
@@ -129,7 +141,7 @@ pub fn render(b: &Built) -> String {
 }
 
 pub fn check(bytes: &[u8], ctx: &mut Ctx) -> Outcome {
-    match build(bytes) {
+    match build(bytes, ctx.tier) {
         Err(BuildErr::Skip(why)) => ctx.skip(why),
         Ok(b) => {
             ctx.set_sample(render(&b));
@@ -153,7 +165,7 @@ pub fn check_text(text: &str, ctx: &mut Ctx) -> Outcome {
     let var_defs = op_doc.defs.iter().find_map(|d| if let Definition::Operation(o) = d { Some(o.vars.clone()) } else { None }).unwrap_or_default();
     let case = Case { sdl: parts[2].to_string(), op_text: parts[0].to_string(), schema_doc, schema, op_doc, var_defs, variables, features: vec![] };
     ctx.set_sample(text.to_string());
-    match build_from(case, &[], Some(world)) {
+    match build_from(case, &[], Some(world), ctx.tier) {
         Err(BuildErr::Skip(why)) => Outcome::fail("C26|bad-repro", why),
         Ok(b) => evaluate(&b, ctx),
     }
@@ -597,7 +609,7 @@ mod tests {
                 *skips.entry(w.to_string()).or_insert(0) += 1;
                 if w.starts_with("variables-rejected") && skips[w] < 4 {
                     let (cb, _) = exec_ops::split_world_bytes(&bytes);
-                    let case = exec_ops::case(&cb, &exec_ops::Opts::default());
+                    let case = exec_ops::case(&cb, &opts(Tier::Quick));
                     println!("REJECTED VARS: {:?}\n{}", Coercer::new(&case.schema).coerce_variable_values(&case.var_defs, &case.variables), case.render());
                 }
                 if w.starts_with("apollo-validation") && skips[w] < 6 {
